@@ -261,6 +261,46 @@ theorem export_only_when_connected (C : Crypto) (L : Loc) (isClient : Bool) (fp 
     exact ⟨hc, tr, hf⟩
   · cases h
 
+/-- **no application data unless the handshake completed**: whatever datagram arrives after any
+history, bytes are handed to the upper layer only if — at that moment — the endpoint is Connected,
+hence has verified a Finished in this handshake (and, for a client with an expected fingerprint,
+everything `client_auth` lists).  In particular a Handshaking, Failed or Closed endpoint accepts no
+application data. -/
+theorem app_data_only_after_finished (C : Crypto) (L : Loc) (isClient : Bool) (fp : Option Bytes) (ops : List Op)
+    (dec : DecFn) (bs p : Bytes)
+    (h : Out.deliver p ∈ (onPacket dec C L (after C L isClient fp ops) bs).2) :
+    ∃ k tr, Ev.finished k tr ∈ (onPacket dec C L (after C L isClient fp ops) bs).1.evs := by
+  have hb0 := (start_base C L isClient fp).steps (runOps_vstep C L ops (start L isClient fp).1)
+  unfold onPacket at h ⊢
+  split at h
+  · simp at h
+  · rename_i halive
+    simp only [halive, if_false]
+    dsimp only at h ⊢
+    have key : ∀ q, Out.deliver q ∈ (onDatagram dec C L (bs.length + 1) (after C L isClient fp ops) bs).out →
+        ∃ k tr, Ev.finished k tr ∈ (onDatagram dec C L (bs.length + 1) (after C L isClient fp ops) bs).ep.evs := by
+      intro q hq
+      obtain ⟨e', h1, h2, h3⟩ := onDatagram_deliver_mid dec C L _ _ bs q hq
+      obtain ⟨k, tr, _, hf⟩ := (hb0.steps h1).conn h3
+      exact ⟨k, tr, h2.evs_mono _ hf⟩
+    split at h
+    · rename_i hc
+      simp only [hc, if_true]
+      exact key p h
+    · rename_i hc
+      simp only [hc]
+      exact key p h
+
+/-- … stated for the states the property names: while not Connected (and not becoming so within the
+datagram, i.e. no Finished gets verified), nothing is delivered. -/
+theorem no_app_data_without_finished (C : Crypto) (L : Loc) (isClient : Bool) (fp : Option Bytes) (ops : List Op)
+    (dec : DecFn) (bs : Bytes)
+    (hno : ∀ k tr, Ev.finished k tr ∉ (onPacket dec C L (after C L isClient fp ops) bs).1.evs) :
+    ∀ p, Out.deliver p ∉ (onPacket dec C L (after C L isClient fp ops) bs).2 := by
+  intro p hp
+  obtain ⟨k, tr, h⟩ := app_data_only_after_finished C L isClient fp ops dec bs p hp
+  exact hno k tr h
+
 /-- **server_auth, the part that holds**: a Connected server has verified a Finished under keys
 derived from its own ECDH share and *some* peer share — it talks to whoever sent that
 ClientKeyExchange; nothing ties that party to the expected fingerprint (see the witness below). -/
